@@ -14,7 +14,7 @@ from . import c13_geom as g
 from . import c13_translate as tr
 
 PRE = ("From Coq Require Import QArith PrimFloat.\nFrom EsVerif.Common Require Import Base.\n"
-       "From EsVerif.C13 Require Import Model Spec Exec FloatModel ExecF ExecTie.\nOpen Scope Z_scope.\n")
+       "From EsVerif.C13 Require Import Model Spec Exec FloatModel ExecF ExecTie MoreModel.\nOpen Scope Z_scope.\n")
 KNOWN_CLASS = "C13.kf_cos_resolution"
 MAXDEPTH = 20
 BORDER = 1e-9 * (1 + 1e-6)      # the statement's unconstrained zone (relative), with a hair for the oracle
@@ -26,16 +26,24 @@ _H = {}
 # what c13_translate read out of the sources of the tree under test; the defaults (statement: floor,
 # no margin) are used only when the translation failed, which is reported as a violation by run()
 GEN = {"index": "floor", "pad_deg": Fraction(0), "epsilon": Fraction(1, 10 ** 15), "save_depth": 2,
-       "gPi": Fraction("3.1415926535897932385"), "error": None}
+       "gPi": Fraction("3.1415926535897932385"), "ravel": False, "ra2_typo": True, "error": None}
 
 
 def load_gen():
     root = os.environ.get("VERIF_IMPL")
-    try:
-        GEN.update(tr.translate(root))
-        GEN["error"] = None
-    except tr.TranslateError as e:
-        GEN["error"] = str(e)
+    got, errors = tr.translate_partial(root)
+    GEN.update(got)
+    GEN["error"] = "; ".join(errors) if errors else None
+    if errors and "pad_deg" not in got:
+        # cbincount itself no longer translates: read at least the margin constant, so that the covers requested by the harness
+        # are those of the code under test
+        import re
+        try:
+            m = re.findall(r"#define BINCOUNT_COVER_PAD_DEGREES ([0-9.eE+-]+)", open(os.path.join(root, "esutil", "htm", "htmc.cc")).read())
+            if len(m) == 1:
+                GEN["pad_deg"] = Fraction(m[0])
+        except (OSError, ValueError):
+            pass
     return GEN
 
 
@@ -148,12 +156,10 @@ class Ids(C13Entry):
             cs.append({"pts": [list(p) for p in g.SPECIAL], "how": "f8", "family": "special"})
             cs.append({"pts": [[float(a), float(d)] for a in (0, 90, 180, 270, 360) for d in (-90, -45, 0, 45, 90)],
                        "how": "int", "family": "octant"})
-        hows = ["f8", "f8", "list", "strided", "f4", "tuple", "be", "reversed", "readonly", "0d", "len1", "f8", "f2d"]
+        hows = ["f8", "f2dF", "list", "strided", "f4", "tuple", "be", "reversed", "readonly", "0d", "len1", "f8", "f2d"]
         for i in range(ctx.n(36, 400)):
             fam = fams[i % len(fams)]
             how = hows[(i // len(fams) + i) % len(hows)]
-            if how == "f2d" and not GEN.get("ravel"):
-                how = "f8"              # N-d coordinate arrays only once the source flattens them (fixes/C13/0003)
             pts = []
             for _ in range(r.randrange(1, 25)):
                 ra, dec = g.position(r, fam)
@@ -161,7 +167,7 @@ class Ids(C13Entry):
                     ra, dec = float(np.float32(ra)), float(np.float32(dec))
                     dec = max(-90.0, min(90.0, dec))
                 pts.append([ra, dec])
-            if how == "f2d" and len(pts) % 2:
+            if how in ("f2d", "f2dF") and len(pts) % 2:
                 pts.append(list(pts[0]))
             cs.append({"pts": pts, "how": how, "family": fam})
         # integer-valued positions in integer dtypes (an integer denotes the exact real)
@@ -230,6 +236,9 @@ class Ids(C13Entry):
             sra, sdec = [np.float64(x) for x in ra], dec                                        # numpy scalar with python float
         elif how == "f2d":
             A, D = np.array(ra, dtype="f8").reshape(2, -1), np.array(dec, dtype="f8").reshape(2, -1)
+            sra, sdec = ra, dec
+        elif how == "f2dF":             # the same (2, n) array in Fortran (column-major) memory order; C13_lookup_id_2d: ids in C order
+            A, D = np.asfortranarray(np.array(ra, dtype="f8").reshape(2, -1)), np.asfortranarray(np.array(dec, dtype="f8").reshape(2, -1))
             sra, sdec = ra, dec
         else:
             A, D = ENV[0].arr("pts_ra", ra), ENV[0].arr("pts_dec", dec)
@@ -546,6 +555,9 @@ def bincount_form(form, h, depth, rmin, rmax, nbin, ra1, dec1, ra2, dec2, sc, id
     elif form == "2d":
         conv = lambda a: a.reshape(1, -1) if a.size % 2 else a.reshape(2, -1)
         pre = dict(htmid2=id2.reshape(-1, 1), htmrev2=rev)
+    elif form == "2dF":
+        conv = lambda a: np.asfortranarray(a.reshape(-1, 1) if a.size % 2 else a.reshape(2, -1))
+        pre = dict(htmid2=np.asfortranarray(id2.reshape(2, -1)) if id2.size % 2 == 0 else id2, htmrev2=rev)
     if conv is not None:
         args = [conv(a) for a in pos]
         s2 = sc
@@ -820,8 +832,8 @@ class Bincount(C13Entry):
             if isinstance(scale, list) and len(scale) == 1:          # size-1 array = scalar
                 outs.append(h.bincount(*a, scale=scale[0], getbins=False))
             forms = list(c.get("forms", []))
-            if GEN.get("ravel") and forms:
-                forms.append("2d")           # N-d coordinate arrays only once the source flattens them (fixes/C13/0003)
+            if forms:
+                forms += ["2d", "2dF"]       # N-d coordinate arrays, C and Fortran memory order (fixes/C13/0003, C13_lookup_id_2d)
             for form in forms:
                 o = bincount_form(form, h, depth, c["rmin"], c["rmax"], c["nbin"], ra1, dec1, ra2, dec2, sc, id2, rev, mn, mx)
                 unchanged("form " + form)
@@ -1005,8 +1017,79 @@ class Sequence(C13Entry):
         return "[%s]" % "; ".join("(%s)" % t for t in self._terms(c, out))       # the verdict of every step
 
 
+# ----------------------------------------------------------------------------------------------
+# rejections: which calls raise ValueError (MoreModel.lookup_validate / bincount_validate, C13_*_rejections)
+# ----------------------------------------------------------------------------------------------
+class Rejections(C13Entry):
+    """argument validation of htm.py: the error class of the real call = the model's, for all size combinations"""
+    name = "rejections"
+
+    def cases(self, ctx, round=0):
+        self._ctx = ctx
+        r = ctx.rng
+        cs = []
+        for na, nd in ((1, 1), (3, 3), (1, 2), (2, 1), (3, 1), (0, 1), (4, 5)):
+            cs.append({"op": "lookup_id", "n_ra": na, "n_dec": nd, "family": "rejections"})
+        sizes = [(2, 2, 3, 3, None, None), (2, 3, 3, 3, None, None), (3, 2, 3, 3, None, None), (2, 2, 3, 3, 1, None), (2, 2, 3, 3, 2, None),
+                 (2, 2, 3, 3, 3, None), (1, 1, 3, 3, 1, None), (2, 2, 3, 3, None, 3), (2, 2, 3, 3, None, 2), (2, 2, 3, 3, None, 4),
+                 (2, 2, 3, 3, 4, 2), (2, 1, 3, 3, 5, 7), (2, 2, 3, 4, None, None), (2, 2, 3, 5, 2, 3), (2, 2, 3, 4, None, 2)]
+        if not GEN.get("ra2_typo"):
+            sizes.append((2, 2, 4, 3, None, None))        # dec2 shorter than ra2: only safe to try when the size test rejects it
+        for _ in range(ctx.n(6, 40)):
+            n1, n2 = r.randrange(1, 6), r.randrange(2, 7)
+            sizes.append((n1, r.choice([n1, n1, r.randrange(1, 6)]), n2, r.choice([n2, n2, n2 + r.randrange(1, 3)]) if GEN.get("ra2_typo") else r.choice([n2, r.randrange(2, 7)]),
+                          r.choice([None, 1, n1, r.randrange(1, 6)]), r.choice([None, n2, r.randrange(1, 7)])))
+        for z in sizes:
+            cs.append({"op": "bincount", "sizes": list(z), "family": "rejections"})
+        return cs
+
+    def impl(self, c):
+        h = htm_of(4)
+
+        def code(f):
+            try:
+                f()
+                return 0
+            except ValueError:
+                return 1
+            except Exception as e:  # noqa
+                return [2, "%s: %s" % (type(e).__name__, str(e)[:100])]
+        if c["op"] == "lookup_id":
+            out = code(lambda: h.lookup_id(np.linspace(10, 20, c["n_ra"]), np.linspace(-5, 5, c["n_dec"])))
+        else:
+            a1, d1, a2, d2, ns, ni = c["sizes"]
+            kw = {}
+            if ns is not None:
+                kw["scale"] = np.full(ns, 57.3)
+            if ni is not None:
+                kw["htmid2"] = h.lookup_id(np.linspace(10, 10.3, ni), np.linspace(-0.2, 0.2, ni))
+            out = code(lambda: h.bincount(0.01, 1.0, 3, np.linspace(10, 10.3, a1), np.linspace(-0.2, 0.2, d1),
+                                          np.linspace(10, 10.3, a2), np.linspace(-0.2, 0.2, d2), getbins=False, **kw))
+        out = ("ok", out)
+        self.remember(c, out)
+        return out
+
+    def _model(self, c):
+        if c["op"] == "lookup_id":
+            return "result_code (lookup_validate %d %d)" % (c["n_ra"], c["n_dec"])
+        a1, d1, a2, d2, ns, ni = c["sizes"]
+        opt = lambda x: "None" if x is None else "(Some %d%%nat)" % x
+        return ("result_code (bincount_validate %s {| n_ra1 := %d; n_dec1 := %d; n_ra2 := %d; n_dec2 := %d; n_scale := %s; n_htmid2 := %s |})"
+                % ("true" if GEN.get("ra2_typo") else "false", a1, d1, a2, d2, opt(ns), opt(ni)))
+
+    def term(self, c, out):
+        o = out[1]
+        return "verdict (%s =? %d) true" % (self._model(c), o if isinstance(o, int) else 2)
+
+    def nontrivial(self, c, out):
+        return True
+
+    def show(self, c):
+        return self._model(c)
+
+
 _BASE = {"lookup_id": Ids(), "intersect": Intersect(), "bincount": Bincount()}
-ENTRIES = [_BASE["lookup_id"], _BASE["intersect"], _BASE["bincount"], Sequence(_BASE)]
+ENTRIES = [_BASE["lookup_id"], _BASE["intersect"], _BASE["bincount"], Sequence(_BASE), Rejections()]
 
 TRUSTED = [
     "Coq 8.16.1 kernel (coqc, vm_compute; no native_compute).  The discrete C13 theorems (abstract descent, traversal, counts, checkers, "
@@ -1039,7 +1122,9 @@ DISCRETE = ["C13_id_range", "C13_hierarchy", "C13_range_monitor_complete", "C13_
             "C13_intersect_full_in_inclusive", "C13_intersect_checker_strict", "C13_intersect_outside_known",
             "C13_rev_traversal_visits_each_member_once", "C13_bincount",
             "C13_precomputed_equals_internal", "C13_any_reverse_index_layout", "C13_bincount_checker",
-            "C13_rev_layout_from_C05", "C13_bincount_with_C05_rev", "C13_rev_tie_sound", "C13_radbin_spec", "C13_cast_vs_floor",
+            "C13_rev_layout_from_C05", "C13_bincount_with_C05_rev", "C13_rev_tie_sound",
+            "C13_cap_loop", "C13_cap_loop_state", "C13_lookup_rejections", "C13_lookup_id_rejects_iff", "C13_bincount_rejections",
+            "C13_ra2_dec2_mismatch_not_rejected", "C13_lookup_id_2d", "C13_history_independent", "C13_checkers_decide", "C13_radbin_spec", "C13_cast_vs_floor",
             "C13_checkers_sound"]
 
 LPRE = ("From Coq Require Import Reals.\nFrom Interval Require Import Tactic.\n"
@@ -1119,7 +1204,10 @@ def translation_step(ctx):
         ("(0 <= %d # %d)%%Q" % (gen["pad_deg"].numerator, gen["pad_deg"].denominator), "vm_compute. discriminate.",
          "search-cap margin read from htmc.cc (%s deg) is non-negative" % gen["pad_deg"]),
     ]
-    res = core.coq_lemmas(os.path.join(ctx.work, "gen"), PRE, [(a, b) for a, b, _ in lemmas], shard=1, tag="c13gen")
+    lemmas.append(("RootProofs.eps_ok %s = true" % core.cfloat(float(eps)), "vm_compute. reflexivity.",
+                   "gEpsilon read from SpatialGeneral.h (%s) is finite and >= 0: hypothesis of C13_concrete_root_total" % eps))
+    res = core.coq_lemmas(os.path.join(ctx.work, "gen"), PRE + "From EsVerif.C13 Require RootProofs.\n", [(a, b) for a, b, _ in lemmas],
+                          shard=1, tag="c13gen")
     for (st, _, what), (ok, msg) in zip(lemmas, res):
         ctx.obligation("regenerated statement: " + what, ok, msg)
         if not ok:
